@@ -147,20 +147,35 @@ def run(chk, replay=None):
 
     def play(seq, assign):
         live = {}
+        used = set()
         for act, sl, role in seq:
             r = refs[assign[role]]
             if act == "construct":
                 live[sl] = (r, r.build())
+                used.discard(sl)
             elif act == "discard":
                 live.pop(sl, None)
+            elif act == "use":
+                # a transport fills / grows this object's buffers in place; the object itself is
+                # no longer compared with its reference, every other object still is
+                cmd = live[sl][1]
+                for buf in (cmd.datain, cmd.dataout):
+                    if isinstance(buf, bytearray):
+                        buf[:] = b"\xA5" * len(buf)
+                        buf.extend(b"\x5A\x5A\x5A")
+                used.add(sl)
             else:
                 check_probe(r, "+".join(sorted(set(assign.values()) - {r.name})) or r.name)
             for sl2, (rr, cmd) in list(live.items()):
+                if sl2 in used:
+                    continue
                 check_obj(rr, cmd, "+".join(sorted(set(assign.values()) - {rr.name})) or rr.name)
 
     canon = [s for s in seqs2 if [x[0] for x in s] in (["construct", "construct", "probe"],
                                                          ["construct", "construct", "discard", "probe"],
-                                                         ["construct", "construct", "probe", "discard"])]
+                                                         ["construct", "construct", "probe", "discard"],
+                                                         ["construct", "construct", "use", "probe"],
+                                                         ["construct", "use", "construct", "probe"])]
     for a, b in itertools.product(names, names):         # all ordered pairs
         for s in canon:
             play(s, {"A": a, "B": b})
@@ -259,6 +274,46 @@ def run(chk, replay=None):
         ev.case(("threads", a, b, len(scheds)))
         ev.cov.setdefault("schedules", []).append({"pair": [a, b], "yield_points": [n1, n2], "schedules": len(scheds),
                                                    "broken": bad})
+    # the same in pristine processes: library imported but never used before the threads start
+    import json as _json
+    import os as _os
+    import subprocess as _sp
+    import sys as _sys
+    from ..core.runner import VERIF
+    fresh_pairs = [("Read16", "SynchronizeCache16"), ("Read10", "Write16")] if chk.quick else \
+        [("Read16", "SynchronizeCache16"), ("Read10", "Write16"), ("Inquiry", "ReportLuns"), ("ATAPassThrough16", "ModeSense6")]
+    for a, b in fresh_pairs:
+        if a not in refs or b not in refs:
+            continue
+        ra, rb = refs[a], refs[b]
+        cfgj = _json.dumps([ra.a, ra.ph, ra.set, rb.a, rb.ph, rb.set])
+        wk = [_sys.executable, _os.path.join(VERIF, "harness", "props", "c09_worker.py"), a, b, cfgj]
+        m = _json.loads(_sp.run(wk + ["measure"], stdout=_sp.PIPE, cwd=VERIF, timeout=300).stdout.decode())
+        n1, n2 = m[0][0], m[1][0]
+        rs = tlc.run("MC_Sched", "MC_Sched.cfg", workers=8, timeout=1200, name="c09schedf",
+                     env={"N1": str(n1), "N2": str(n2), "P": "1", "GRID": "2" if chk.quick else "1"})
+        ev.tlc("Sched (pristine processes) N=<<%d,%d>> P=1 (%s||%s)" % (n1, n2, a, b), rs)
+        scheds = [v for t, v in rs.prints if t == "SCHED"]
+        p = _sp.run(wk + ["run"], input=_json.dumps(scheds).encode(), stdout=_sp.PIPE, cwd=VERIF, timeout=1200)
+        o = _json.loads(p.stdout.decode())
+        bad = 0
+        if o["iso"] != o["iso2"]:
+            chk.violation({"clause": "ThreadIsolation", "cls": a, "other": b, "field": "",
+                           "detail": {"isolated A-first": o["iso"], "isolated B-first": o["iso2"]},
+                           "what": "isolated result depends on which class ran first"})
+        for sg, res in zip(scheds, o["results"]):
+            nsched += 1
+            for t in (0, 1):
+                if res[t] != o["iso"][t]:
+                    bad += 1
+                    chk.violation({"clause": "ThreadIsolation", "cls": (a, b)[t], "other": (b, a)[t], "field": "",
+                                   "detail": {"schedule": sg, "thread": t + 1, "result": repr(res[t])[:300],
+                                              "isolated": repr(o["iso"][t])[:300], "pristine_process": True},
+                                   "what": "thread result differs from its isolated result (pristine process)"},
+                                  dedup=("ThreadIsolation", (a, b)[t], (b, a)[t], "fresh"))
+        ev.case(("threads-pristine", a, b, len(scheds)))
+        ev.cov.setdefault("schedules", []).append({"pair": [a, b], "pristine_process": True, "yield_points": [n1, n2],
+                                                   "schedules": len(scheds), "broken": bad})
     ev.replayed(nsched)
     if pairs:
         ev.sample({"schedule": scheds[len(scheds) // 2], "threads": list(pairs[-1])})
